@@ -1270,6 +1270,19 @@ impl Channel {
             return Ok((holder_commitment_point, None));
         }
 
+        // policy-revoke-not-closed
+        // A holder commitment (or a closing transaction) may already have been signed for
+        // broadcast.  A successor that was validated before that point must not make the
+        // signed commitment revocable.
+        if self.enforcement_state.channel_closed {
+            policy_err!(
+                validator,
+                "policy-revoke-not-closed",
+                "cannot revoke holder commitment {}, channel is closing",
+                new_current_commitment_number.saturating_sub(1),
+            );
+        }
+
         // checked above
         let (info2, sigs) = self.enforcement_state.next_holder_commit_info.take().unwrap();
         let incoming_payment_summary =
